@@ -78,7 +78,7 @@ end ZV.P05
 /-! ### The hypotheses are satisfiable; the generated code runs -/
 namespace ZV.P05
 open ZV ZV.Std
-local instance : Transc ℚ := ⟨id, id, id⟩
+local instance transcRatC05Gen : Transc ℚ := ⟨id, id, id⟩
 
 /-- four rows; conditions "even id" (p = 1/4) and "odd id" (p = 3/4), exclusive and exhaustive -/
 def exRowsG : List (Row ℚ) := [⟨0, 0, true, 1, 2, true⟩, ⟨1, 0, false, 0, 1, true⟩, ⟨2, 0, false, 1, 1, true⟩, ⟨3, 0, true, 1, 3, true⟩]
